@@ -29,6 +29,8 @@ pub struct TestRunnerAdapter {
     event_receiver: Receiver<MachineEvent>,
     breakpoints: Arc<Mutex<Vec<MachineBreakpoint>>>,
     test_case_path: IdentifierPath,
+    // The breakpoints as they were set per source file (the machine thread looks at all of them)
+    breakpoint_sources: HashMap<String, Vec<MachineBreakpoint>>,
 }
 
 /// When a test has ended, tells the client how it ended and disconnects the machine
@@ -220,6 +222,7 @@ impl TestRunnerAdapter {
             event_receiver,
             breakpoints,
             test_case_path: test_case_path.clone(),
+            breakpoint_sources: HashMap::new(),
         })
     }
 
@@ -424,18 +427,31 @@ impl MachineAdapter for TestRunnerAdapter {
         source_path: &str,
         breakpoints: Vec<MachineBreakpoint>,
     ) -> MosResult<Vec<MachineValidatedBreakpoint>> {
+        // The request replaces the breakpoints of this source file only
+        let other_files = self
+            .breakpoint_sources
+            .iter()
+            .filter(|(path, _)| path.as_str() != source_path)
+            .flat_map(|(_, bps)| bps.iter().cloned())
+            .collect::<Vec<_>>();
+        self.breakpoint_sources
+            .insert(source_path.into(), breakpoints.clone());
+        let all = other_files
+            .into_iter()
+            .chain(breakpoints.iter().cloned())
+            .collect::<Vec<_>>();
         #[cfg(not(datatrash_mos_verif))]
         {
-            *self.breakpoints.lock().unwrap() = breakpoints.clone();
+            *self.breakpoints.lock().unwrap() = all;
         }
         #[cfg(datatrash_mos_verif)]
         {
             let mut g = self.breakpoints.lock().unwrap();
-            *g = breakpoints.clone();
-            let starts: Vec<String> = breakpoints
+            let starts: Vec<String> = all
                 .iter()
                 .map(|b| format!("{}", b.range.start.as_u16()))
                 .collect();
+            *g = all;
             crate::verif_dbg::event("set_bps", &format!("\"pcs\":[{}]", starts.join(",")));
         }
         Ok(breakpoints
